@@ -25,8 +25,7 @@ static int run_evt(int ev)
 static void layout(int cap, int mode)
 {
         /* mode 0 separate, 1 shared even, 2 shared odd buffer size */
-        sw_caps(cap, mode != 0);
-        if (mode == 2) W.buf_size = 2 * cap + 1;
+        sw_caps(cap, mode);
         W.line_max = 3 * cap + 60;
         W.mon = P_ALL;
 }
